@@ -443,18 +443,36 @@ func (fr *Frame) lookupLocal(name string, st *State, at *ssa.BasicBlock, phiOver
 	}
 	fc := fr.fc
 	if name == "$k" {
-		for _, in := range at.Instrs {
-			if p, ok := in.(*ssa.Phi); ok && p.Comment == "rangeindex" {
-				v := fr.vals[p]
-				if o, ok := phiOver[p]; ok {
-					v = o
-				}
-				one := fc.m.intConstI(1, tInt)
-				if fc.m.mode == ModeBV {
-					return Val{T: tInt, S: sx("bvadd", v.S, one)}, true
-				}
-				return Val{T: tInt, S: sx("+", v.S, one)}, true
+		// iterations completed by the innermost enclosing slice-range loop
+		var bestP *ssa.Phi
+		var bestB *ssa.BasicBlock
+		for _, b := range fr.fn.Blocks {
+			if !(b == at || b.Dominates(at)) {
+				continue
 			}
+			for _, in := range b.Instrs {
+				p, ok := in.(*ssa.Phi)
+				if !ok {
+					break
+				}
+				if p.Comment == "rangeindex" && (bestB == nil || bestB.Dominates(b)) {
+					// the block must still be inside that loop
+					if li := fr.loopOf[b]; li != nil && (li.blocks[at] || b == at) {
+						bestP, bestB = p, b
+					}
+				}
+			}
+		}
+		if bestP != nil {
+			v := fr.vals[bestP]
+			if o, ok := phiOver[bestP]; ok {
+				v = o
+			}
+			one := fc.m.intConstI(1, tInt)
+			if fc.m.mode == ModeBV {
+				return Val{T: tInt, S: sx("bvadd", v.S, one)}, true
+			}
+			return Val{T: tInt, S: sx("+", v.S, one)}, true
 		}
 		return Val{}, false
 	}
@@ -477,14 +495,24 @@ func (fr *Frame) lookupLocal(name string, st *State, at *ssa.BasicBlock, phiOver
 			}
 		}
 	}
-	// DebugRef: closest dominating definition
+	// closest dominating definition: DebugRef'd values and phis named after the variable
 	var best ssa.Value
 	var bestB *ssa.BasicBlock
+	better := func(b *ssa.BasicBlock) bool { return bestB == nil || bestB == b || bestB.Dominates(b) }
 	for _, b := range fr.fn.Blocks {
 		if !(b == at || b.Dominates(at)) {
 			continue
 		}
 		for _, in := range b.Instrs {
+			if p, ok := in.(*ssa.Phi); ok {
+				if p.Comment == name && better(b) {
+					best, bestB = p, b
+				}
+				continue
+			}
+			if b == at {
+				break // only the phis of the block itself count at its head
+			}
 			d, ok := in.(*ssa.DebugRef)
 			if !ok || d.IsAddr {
 				continue
@@ -496,13 +524,7 @@ func (fr *Frame) lookupLocal(name string, st *State, at *ssa.BasicBlock, phiOver
 			if _, isVar := o.(*types.Var); !isVar {
 				continue
 			}
-			if b == at {
-				// only phis of the block count at its head; skip definitions inside the block itself
-				if _, isPhi := d.X.(*ssa.Phi); !isPhi {
-					continue
-				}
-			}
-			if bestB == nil || bestB.Dominates(b) {
+			if better(b) {
 				best, bestB = d.X, b
 			}
 		}
@@ -915,7 +937,8 @@ func (fr *Frame) isLocalCell(a *ssa.Alloc) bool {
 				}
 			case *ssa.UnOp, *ssa.DebugRef:
 			case *ssa.MakeClosure:
-				if !closureOnlyCalled(u) {
+				// a closure that escapes may run at any time: the cell stays local only if no closure body writes it
+				if !closureOnlyCalled(u) && closureWrites(u, a, 0) {
 					ok = false
 				}
 			default:
@@ -1487,4 +1510,43 @@ func (fr *Frame) closureLocalMods(mc *ssa.MakeClosure, ms *ModSet, depth int) {
 			}
 		}
 	}
+}
+
+// closureWrites: does the closure (or a closure nested in it) store to the captured variable alloc?
+func closureWrites(mc *ssa.MakeClosure, alloc ssa.Value, depth int) bool {
+	if depth > 4 {
+		return true
+	}
+	fn, ok := mc.Fn.(*ssa.Function)
+	if !ok {
+		return true
+	}
+	for i, bnd := range mc.Bindings {
+		if bnd != alloc || i >= len(fn.FreeVars) {
+			continue
+		}
+		fv := fn.FreeVars[i]
+		if fv.Referrers() == nil {
+			continue
+		}
+		for _, r := range *fv.Referrers() {
+			switch u := r.(type) {
+			case *ssa.Store:
+				if u.Addr == fv {
+					return true
+				}
+				if u.Val == fv {
+					return true // address escapes
+				}
+			case *ssa.UnOp, *ssa.DebugRef:
+			case *ssa.MakeClosure:
+				if closureWrites(u, fv, depth+1) {
+					return true
+				}
+			default:
+				return true
+			}
+		}
+	}
+	return false
 }
